@@ -2,7 +2,7 @@
    Property theorems only; each is closed by [exact] of a lemma proved in
    C11/Lemmas.v or C11/HeapLemmas.v and followed by its assumptions. *)
 From Coq Require Import ZArith List Bool Permutation.
-From V Require Import C11.Model C11.Spec C11.HeapModel C11.Lemmas C11.HeapLemmas C11.Laws.
+From V Require Import C11.Model C11.Spec C11.HeapModel C11.Lemmas C11.HeapLemmas C11.Laws C11.QueueModel C11.QueueLemmas.
 Import ListNotations.
 Open Scope Z_scope.
 
@@ -196,6 +196,51 @@ Print Assumptions C11_compare_task_no_swo_extension.
 Theorem C11_plugin_comparators_valid : forall kind, valid_on everywhere (real_cmp kind).
 Proof. exact plugin_comparators_valid. Qed.
 Print Assumptions C11_plugin_comparators_valid.
+
+(* ---- queue comparators of the shipped proportion / capacity / drf plugins, as written ---- *)
+
+(* proportion and flat capacity: (priority, share, has-deserved) - valid on every set *)
+Theorem C11_cmp_capacity_flat_valid : valid_on everywhere cmp_capacity_flat.
+Proof. exact cmp_capacity_flat_valid. Qed.
+Print Assumptions C11_cmp_capacity_flat_valid.
+
+(* capacity VictimQueueOrderFn (level of the common ancestor with the preemptor) - valid *)
+Theorem C11_cmp_capacity_victim_valid : forall p, valid_on everywhere (cmp_capacity_victim p).
+Proof. exact cmp_capacity_victim_valid. Qed.
+Print Assumptions C11_cmp_capacity_victim_valid.
+
+(* hierarchical capacity QueueOrderFn: valid among the children of one parent
+   (and among non-leaf queues with one ancestor chain) ... *)
+Theorem C11_cmp_capacity_hier_valid_siblings : forall anc leaf,
+  valid_on (fun q => rq_leaf q = leaf /\ rq_anc q = anc) cmp_capacity_hier.
+Proof. exact cmp_capacity_hier_valid_siblings. Qed.
+Print Assumptions C11_cmp_capacity_hier_valid_siblings.
+
+(* ... but NOT across subtrees whose roots tie: x ~ z ~ y with x < y, and with the
+   creation-time tie-break the session QueueOrderFn is cyclic (genuine defect,
+   reproduced on the real plugin; known finding) *)
+Theorem C11_cmp_capacity_hier_refuted :
+  ~ valid_on everywhere cmp_capacity_hier /\
+  (let lt := order_fn (one_slot cmp_capacity_hier) rq_tb in
+   lt cap_x cap_y = true /\ lt cap_y cap_z = true /\ lt cap_z cap_x = true).
+Proof. exact cmp_capacity_hier_refuted. Qed.
+Print Assumptions C11_cmp_capacity_hier_refuted.
+
+(* hdrf compareQueues: valid on every set of queues of one hierarchy depth ... *)
+Theorem C11_cmp_hdrf_valid_equal_depth : forall n,
+  valid_on (fun q => length (rq_nodes q) = n) cmp_hdrf.
+Proof. exact cmp_hdrf_valid_equal_depth. Qed.
+Print Assumptions C11_cmp_hdrf_valid_equal_depth.
+
+(* ... but NOT on queues of unequal depth (root/sci next to root/eng/dev,
+   root/eng/prod - the layout of the plugin's own unit test): cyclic with the
+   tie-break (genuine defect, reproduced on the real plugin; known finding) *)
+Theorem C11_cmp_hdrf_refuted :
+  ~ valid_on everywhere cmp_hdrf /\
+  (let lt := order_fn (one_slot cmp_hdrf) rq_tb in
+   lt hd_dev hd_prod = true /\ lt hd_prod hd_sci = true /\ lt hd_sci hd_dev = true).
+Proof. exact cmp_hdrf_refuted. Qed.
+Print Assumptions C11_cmp_hdrf_refuted.
 
 (* BuildVictimsPriorityQueue: two distinct victims are ordered exactly one way *)
 Theorem C11_victim_queue_order_total :
